@@ -626,6 +626,7 @@ type Interp struct {
 	AppStub func(in *Interp, name string, args []gosym.Str, stdin gosym.Str) (gosym.Str, *sym.Term)
 	Trace   []string
 	MaxIter int
+	Bits    int // 0/64: 64-bit integers (Bash target); 32: integers wrap at 32 bits (Batch target)
 	topPseudo bool
 }
 
@@ -804,7 +805,7 @@ func (in *Interp) stmt(s Stmt) {
 		if !x.Inc {
 			op = sym.OpSub
 		}
-		*p = RInt{B.Bin(op, (*p).(RInt).T, B.BV(1, 64))}
+		*p = RInt{in.wrap(B.Bin(op, (*p).(RInt).T, B.BV(1, 64)))}
 	case SliceSet:
 		so := (*in.find(x.Name)).(RSlice).P
 		it := in.intOf(x.I)
@@ -1070,27 +1071,66 @@ func (in *Interp) equal(a, b RV) *sym.Term {
 	panic(RefUnsupported{"equality of slices"})
 }
 
+// wrap reduces an integer result to the target's width.
+func (in *Interp) wrap(t *sym.Term) *sym.Term {
+	if in.Bits == 32 {
+		return in.C.B.SExt(in.C.B.Extract(t, 0, 32), 64)
+	}
+	return t
+}
+
 func (in *Interp) binop(op string, a, b RV) RV {
 	B := in.C.B
 	if s, ok := a.(RStr); ok {
 		return RStr{gosym.Concat(s.S, b.(RStr).S)}
 	}
 	x, y := a.(RInt).T, b.(RInt).T
+	if in.Bits == 32 {
+		// operate on the low 32 bits and sign-extend the result (the shape BatSem produces for set /A)
+		x32, y32 := B.Extract(x, 0, 32), B.Extract(y, 0, 32)
+		var r *sym.Term
+		switch op {
+		case "+":
+			r = B.Bin(sym.OpAdd, x32, y32)
+		case "-":
+			r = B.Bin(sym.OpSub, x32, y32)
+		case "*":
+			r = B.Bin(sym.OpMul, x32, y32)
+		case "/", "%":
+			if in.C.Branch(B.Eq(y32, B.BV(0, 32))) {
+				exclude("division or modulo by zero")
+			}
+			if in.C.Branch(B.And(B.Eq(x32, B.BV(0x80000000, 32)), B.Eq(y32, B.BV(0xffffffff, 32)))) {
+				exclude("INT_MIN / -1 at 32 bits")
+			}
+			if op == "/" {
+				r = B.Bin(sym.OpSDiv, x32, y32)
+			} else {
+				r = B.Bin(sym.OpSRem, x32, y32)
+			}
+		default:
+			panic(RefUnsupported{"operator " + op})
+		}
+		return RInt{B.SExt(r, 64)}
+	}
 	switch op {
 	case "+":
-		return RInt{B.Bin(sym.OpAdd, x, y)}
+		return RInt{in.wrap(B.Bin(sym.OpAdd, x, y))}
 	case "-":
-		return RInt{B.Bin(sym.OpSub, x, y)}
+		return RInt{in.wrap(B.Bin(sym.OpSub, x, y))}
 	case "*":
-		return RInt{B.Bin(sym.OpMul, x, y)}
+		return RInt{in.wrap(B.Bin(sym.OpMul, x, y))}
 	case "/", "%":
 		if in.C.Branch(B.Eq(y, B.BV(0, 64))) {
 			exclude("division or modulo by zero")
 		}
-		if op == "/" {
-			return RInt{B.Bin(sym.OpSDiv, x, y)}
+		if in.Bits == 32 && in.C.Branch(B.And(B.Eq(x, B.Int(-2147483648, 64)), B.Eq(y, B.Int(-1, 64)))) {
+			exclude("INT_MIN / -1 at 32 bits")
 		}
-		return RInt{B.Bin(sym.OpSRem, x, y)}
+		if op == "/" {
+			return RInt{in.wrap(B.Bin(sym.OpSDiv, x, y))}
+		}
+		return RInt{in.wrap(B.Bin(sym.OpSRem, x, y))}
 	}
 	panic(RefUnsupported{"operator " + op})
 }
@@ -1101,7 +1141,12 @@ func (in *Interp) eval(e Expr) RV {
 	switch x := e.(type) {
 	case IntLit:
 		if x.Marker >= 0 {
-			return RInt{in.C.MarkerVar(x.Marker)}
+			v := in.C.MarkerVar(x.Marker)
+			if in.Bits == 32 {
+				// literals of a 32-bit program fit into 32 bits
+				in.C.AssumeUnchecked(B.And(B.Cmp(sym.OpSLe, B.Int(-2147483648, 64), v), B.Cmp(sym.OpSLe, v, B.Int(2147483647, 64))))
+			}
+			return RInt{v}
 		}
 		return RInt{B.Int(x.Val, 64)}
 	case BoolLit:
